@@ -128,12 +128,13 @@ def _case(arg):
     oracle_p = {k: v for k, v in p.items() if k != "trim_inf"}
     f = rtf.forward(name, oracle_p)
     xs, (lo, hi) = points_for(name, p, seed)
+    from grid.rtransform import InverseRTransform
+
     with warnings.catch_warnings():
         warnings.simplefilter("ignore")
         try:
             tf = build(name, p)
             if inverse:
-                from grid.rtransform import InverseRTransform
 
                 tf = InverseRTransform(build(name, p))
         except Exception as exc:
@@ -262,6 +263,31 @@ def _case(arg):
                 call(meth, float(a[len(a) // 2]))
             except Exception as exc:
                 res.note(f"observation (not counted): {tag}.{meth}(python float) raises {type(exc).__name__}")
+        # histories on one instance with one work array refilled in place (added after seeded change C03-D: an
+        # identity-keyed memo inside the Inverse wrapper): m1(buf); buf[:] = other points; m2(buf) must equal what a
+        # fresh instance returns for a fresh copy of those points.  All ordered pairs of methods.
+        all_m = ("transform", "deriv", "deriv2", "deriv3", "inverse", "deriv_inverse", "deriv2_inverse", "deriv3_inverse")
+        try:
+            fresh = build(name, p)
+            if inverse:
+                fresh = InverseRTransform(build(name, p))
+            second = {m: np.array(back_arg if m in takes_image else arg_pts, dtype=float)[::-1].copy() for m in all_m}
+            with np.errstate(all="ignore"):
+                want2 = {m: np.asarray(getattr(fresh, m)(second[m].copy()), dtype=float) for m in all_m}
+            for m1, m2 in itertools.product(all_m, repeat=2):
+                res.count()
+                buf = np.array(back_arg if m1 in takes_image else arg_pts, dtype=float)
+                call(m1, buf)
+                buf[:] = second[m2]
+                got2 = np.asarray(call(m2, buf), dtype=float)
+                res.nontrivial()
+                if got2.shape != want2[m2].shape or not np.array_equal(got2, want2[m2], equal_nan=True):
+                    res.violation(f"{tag}:history:{m2}:stale-after-in-place-refill",
+                                  f"{tag}({pkey}): {m1}(buf); buf[:] = new points; {m2}(buf) differs from {m2} of a fresh instance "
+                                  f"on a fresh copy of the same points", dict(case, history=[m1, "refill", m2]))
+                    break
+        except Exception as exc:
+            res.violation(f"{tag}:history:raised:{type(exc).__name__}", f"{tag}({pkey}): {type(exc).__name__}: {exc} in the refill history", case)
         # monotonicity along the ordered lattice
         res.count()
         try:
